@@ -31,6 +31,10 @@ def classify(case, i, m, s):
 def run(chk):
     chk.coverage["trusted_base"] = [
         "Coq 8.16.1 kernel + vm_compute",
+        "translator/tr_outputformat.py + translator/rsparse.py + translator/rsmonad.py (TraversalOutputFormat and the dispatch of "
+        "generate_route_output / generate_tree_output compiled to coq/Gen/TraversalOutput.v on every run; fails closed; "
+        "coq/Props/GenOutputFormat.v proves Model/Output.v's generate_* equal to it under the model's reading of the operations it "
+        "calls, so a misreading shows up in the output stream); traversal_ops.rs and the wkt / wkb / serde printers stay hand-modelled",
         "hand-written model coq/Model/Output.v (tied by this correspondence run)",
         "the wkt / wkb / geojson / serde_json encoders and flate2: round-tripped by the harness (encode in the plugin, "
         "decode with the same crates), not modelled",
@@ -40,7 +44,16 @@ def run(chk):
         "the result state of a route's last edge has the length the search's state model expects (otherwise the "
         "modelled outcome is the `cost` error class, which the stream also exercises)",
         "edge and vertex ids fit a usize; identifier rows are valid UTF-8 lines"]
-    chk.proofs(extra_targets=["Model/OutputRun.vo"])
+    # Gen/TraversalOutput.v: the dispatch of the five output formats (which traversal_ops operation, which wrapper, which packing) is
+    # regenerated from the Rust source; Props/GenOutputFormat.v proves Model/Output.v's two generate_* functions equal to it
+    ores = vf.run_translators(which=["outputformat"]).get("outputformat", {"ok": False, "msg": "translator module tr_outputformat.py missing"})
+    chk.coverage.setdefault("translator", {})["outputformat"] = {k: ores.get(k) for k in ("ok", "msg", "digest", "files", "changed")}
+    if not ores.get("ok"):
+        chk.violation("broken-correspondence", "translator", {"translator": "tr_outputformat", "error": ores.get("msg")}, ores.get("msg"),
+                      "plugin/output/default/traversal/traversal_output_format.rs has the shape the translator knows (fail closed)",
+                      detail="coq/Gen/TraversalOutput.v could not be regenerated; the previous definitions (if any) are used below",
+                      found=False, key="translator-outputformat")
+    chk.proofs(extra_targets=["Model/OutputRun.vo"], extra_props=["Props/GenOutputFormat.v"])
     binp = vf.build_harness("c20")
     # corpus first: shrunk witnesses of the mutations tried while building this check (one file, one coqc run)
     corpus = os.path.join(vf.ROOT, "corpus", "C20", "witnesses.json")
